@@ -362,7 +362,11 @@ func regFlagAssumptions(p *Prog, r Registration) []Fact {
 			}
 			for i, q := range r.Ctor.Params {
 				if q == par && i < len(r.CtorCall.Call.Args) {
-					if bv, ok := boolConst(r.CtorCall.Call.Args[i]); ok {
+					arg := r.CtorCall.Call.Args[i]
+					if i < len(r.ArgVals) {
+						arg = r.ArgVals[i]
+					}
+					if bv, ok := boolConst(arg); ok {
 						out = append(out, Fact{Atom: "cond:*" + recv + "." + fieldName(fa.X.Type(), fa.Field), Pos: bv, Why: "constant constructor flag of " + r.Key})
 					}
 				}
